@@ -60,6 +60,7 @@ func (b *RetriableBatcher) Out(data *WorkerData, batch *Batch) {
 			return
 		}
 		next := exponentionalBackoff.NextBackOff()
+		verifTrace("retry.next", uint64(numTries), uint64(next))
 		if next == backoff.Stop || (b.backoffOpts.AttemptNum >= 0 && numTries > b.backoffOpts.AttemptNum) {
 			var events []*Event
 			if batch != nil {
